@@ -60,6 +60,8 @@ type tracked struct {
 var c11TypedSchema = tschema.Schema{Types: []tschema.TypeSpec{
 	{Name: "Msg3", Kind: "struct", Repr: "map", Fields: []tschema.FieldSpec{{Name: "whee", Type: "Int"}, {Name: "woot", Type: "Int"}, {Name: "waga", Type: "Int"}}},
 	{Name: "MapMsg3", Kind: "map", Elem: "Msg3"},
+	{Name: "ListMsg3", Kind: "list", Elem: "Msg3"},
+	{Name: "ListString", Kind: "list", Elem: "String"},
 }}
 
 var c11TypedProtos = func() map[string]datamodel.NodePrototype {
@@ -68,19 +70,35 @@ var c11TypedProtos = func() map[string]datamodel.NodePrototype {
 		panic(err)
 	}
 	bm, bs := bindnode.Prototype(nil, ts.TypeByName("MapMsg3")), bindnode.Prototype(nil, ts.TypeByName("Msg3"))
+	bl, bls := bindnode.Prototype(nil, ts.TypeByName("ListMsg3")), bindnode.Prototype(nil, ts.TypeByName("ListString"))
 	return map[string]datamodel.NodePrototype{
 		"gendemo.map": gendemo.Type.Map__String__Msg3, "gendemo.map.repr": gendemo.Type.Map__String__Msg3__Repr,
 		"gendemo.struct": gendemo.Type.Msg3, "gendemo.struct.repr": gendemo.Type.Msg3__Repr,
 		"bindnode.map": bm, "bindnode.map.repr": bm.Representation(),
 		"bindnode.struct": bs, "bindnode.struct.repr": bs.Representation(),
+		"bindnode.list": bl, "bindnode.list.repr": bl.Representation(), "bindnode.strlist": bls,
 	}
 }()
 
-var c11TypedNames = []string{"gendemo.map", "gendemo.map.repr", "gendemo.struct", "gendemo.struct.repr", "bindnode.map", "bindnode.map.repr", "bindnode.struct", "bindnode.struct.repr"}
+var c11TypedNames = []string{"gendemo.map", "gendemo.map.repr", "gendemo.struct", "gendemo.struct.repr", "bindnode.map", "bindnode.map.repr", "bindnode.struct", "bindnode.struct.repr", "bindnode.list", "bindnode.list.repr", "bindnode.strlist"}
 
 func c11TypedValue(name string, a, b int) val.V {
 	if strings.Contains(name, "struct") {
 		return msg3(int64(a), int64(b), int64(a*b))
+	}
+	if strings.Contains(name, "strlist") {
+		v := val.V{K: val.List, Items: []val.V{}}
+		for i := 0; i < a%5; i++ {
+			v.Items = append(v.Items, val.MkString(fmt.Sprintf("s%d-%d", i, b)))
+		}
+		return v
+	}
+	if strings.Contains(name, "list") {
+		v := val.V{K: val.List, Items: []val.V{}}
+		for i := 0; i < a%4; i++ {
+			v.Items = append(v.Items, msg3(int64(a+i), int64(b), int64(i)))
+		}
+		return v
 	}
 	v := val.V{K: val.Map, Ents: []val.Ent{}}
 	for i := 0; i < a%4; i++ {
